@@ -23,7 +23,7 @@ CHECKS = {
     "C07": C("runtime monitoring: ptrace single-step instruction-trace monitor with a byte-wise memcmp/bcmp override and determinism/sensitivity controls",
              "Held on the traced probes: refusals of one request under one key whose signatures differ only in which characters are wrong (every first-difference position in thorough) execute identical instruction-address sequences (count + hash); a harness-local early-exit compare shows position-dependent traces in the same set-up. Instruction sequence only, not micro-architectural timing.", "§4 C07",
              note="Trusts ptrace single-stepping and that forks of one warmed single-threaded parent share layout, allocator state and hash seeds (checked by the determinism control each run); the memcmp/bcmp override is verified effective by the sensitivity control each run."),
-    "C08": C("runtime monitoring: panic/abort monitor at the API boundary over hostile workloads; child-process exit status for heavy inputs; thorough adds ASan, valgrind memcheck and Miri runs",
+    "C08": C("runtime monitoring: panic/abort monitor at the API boundary over hostile workloads; child-process exit status for heavy inputs; thorough adds ASan, valgrind memcheck, Miri and a coverage-guided (libFuzzer + ASan) run of the generators",
              "Held on K observed executions: no panic, hang or abnormal exit over dictionary-guided hostile requests, every charset label × body shapes, limit-length URIs and ≥ 64 KiB / 1 MiB bodies, direct calls of canonicalisers / authenticator builder / key types, builders and error conversions; sanitizer runs clean in the thorough tier. Says nothing about inputs not generated.", "§4 C08"),
     "C09": C("runtime monitoring: reference normal form + idempotence + re-spelling relations on direct calls (crate's unstable feature), plus end-to-end acceptance of reference-signed paths",
              "Held on the enumerated/explored inputs: byte tables, all ASCII pairs after '%', every path of ≤ 3 (quick) / ≤ 5 (thorough) segments over a 12-symbol alphabet in both modes, random long paths; error kind InvalidURIPath/400 exactly for relative / bad escape / above root. One listed known finding (literal '+').", "§4 C09"),
@@ -33,7 +33,7 @@ CHECKS = {
              "Held on K observed executions: 8 kinds of neutral change (name case, order among names, extra spaces, unsigned headers added/removed/altered/duplicated) keep acceptance; 8 kinds of binding change to signed headers (value byte, multiplicity, value order, space moved into a token, TAB for space…) are refused at the comparison.", "§4 C11"),
     "C12": C("runtime monitoring: four-way option-flip monitor (same wire request signed folded and verbatim, validated with folding on and off) + returned-URI multiset check",
              "Held on K observed executions: with folding on and a form body exactly the merged-multiset signature (empty payload hash) is accepted, otherwise exactly the verbatim-body signature; names occurring in URL and body are kept; body byte flips refused; undecodable bodies / unknown charsets → 400.", "§4 C12"),
-    "C13": C("runtime monitoring: defect-injection workload judged by a total reference decision model (earliest failing check + error class) and a kind→(code,status) table monitor",
+    "C13": C("runtime monitoring: defect-injection workload judged by a total reference decision model (earliest failing check + error class) and a kind→(code,status) table monitor; thorough adds a coverage-guided (libFuzzer) run with every monitor as the oracle",
              "Held on K observed executions: all single defects, all pairs and random subsets of 31 injectors on both carriers report the earliest failing check's class; every (earlier, later, carrier) cell of the pair matrix observed; every error seen and every variant constructed directly obeys the kind → (code, status) table.", "§4 C13"),
     "C14": C("fault enumeration: complete enumeration of provider scripts within bounds × request classes, offline event-log checker; random histories on a shared provider",
              "All 352 provider scripts (readiness delayed 0–3 then ready/16 error kinds; answer delayed 0–3 then right key / wrong key / 16 error kinds) × 14 request classes × 2 carriers executed and decided: no provider event for requests refused earlier, exactly one call after Ready(Ok), errors passed on as (kind, text), never Ok after an error or with a wrong key; histories sharing one provider equal fresh-provider runs.", "§4 C14", level="fault_enumeration"),
@@ -91,8 +91,8 @@ def main():
         "engines": [
             {"name": "tracer", "path": "/verif/harness/src/bin/tracer.rs", "serves_properties": ["C07"],
              "kind_free_text": "ptrace single-step instruction-trace monitor (own binary: carries a byte-wise memcmp/bcmp override)"},
-            {"name": "san.py", "path": "/verif/san.py", "serves_properties": ["C08", "C18"],
-             "kind_free_text": "thorough tier: builds ASan / TSan (-Zbuild-std) variants and runs Miri and valgrind memcheck over the harness's sub-workloads"},
+            {"name": "san.py", "path": "/verif/san.py", "serves_properties": ["C08", "C13", "C18"],
+             "kind_free_text": "thorough tier: builds ASan / TSan (-Zbuild-std) variants, runs Miri, valgrind memcheck and libFuzzer (harness/fuzz: inputs are decision tapes for the workload generators) over the harness's sub-workloads"},
             {"name": "vh", "path": "/verif/harness", "serves_properties": sorted(k for k in CHECKS.keys() if k != "C07"),
              "kind_free_text": "Rust harness linked against /repo: workload generators, executor with instrumented key provider / "
                                "panic capture / log capture, reference model, monitors, evidence writer"},
